@@ -59,12 +59,18 @@ impl ClassBody {
 
 impl Dependencies for ClassBody {
     fn supplies(&self) -> Vec<Dependency> {
-        let mut features_sup: Vec<Dependency> =
-            self.features.iter().flat_map(|x| x.supplies()).collect();
+        // What the class body itself declares are its member variables. The parameters of a method (or of the
+        // constructor) are that function's own: its dependencies arrive here already net of them, and listing
+        // them again would hide a captured variable of the same name from every OTHER method.
+        let mut fields: Vec<Dependency> = vec![];
 
-        features_sup.append(&mut self.constructor.supplies());
+        for feature in &self.features {
+            if let ClassFeature::Variable(variable) = feature {
+                fields.append(&mut variable.supplies());
+            }
+        }
 
-        features_sup
+        fields
     }
 
     fn dependencies(&self) -> Vec<Dependency> {
